@@ -210,6 +210,9 @@ impl Panicked {
         let m = &self.msg;
         let table = [
             ("not a char boundary", "not-a-char-boundary"),
+            ("invalid Gregorian date", "expect-invalid-gregorian"),
+            ("non finite", "assert-finite"),
+            ("when slicing", "slice-range"),
             ("attempt to subtract with overflow", "sub-overflow"),
             ("attempt to add with overflow", "add-overflow"),
             ("attempt to multiply with overflow", "mul-overflow"),
